@@ -1790,4 +1790,789 @@ theorem socket_set_ll_opts_agrees (s : Sock) (x y z : PyVal) :
     cases writeLl s x y z <;> rfl
   · rfl
 
+
+/-! ## 7. `socket.bind` (isotp/tpsock/__init__.py) vs `Sock.bind` -/
+
+/-! ### bit facts: the identifier masks -/
+
+theorem and_effMask (x : Nat) : x &&& effMask = x % 536870912 := Nat.and_two_pow_sub_one_eq_mod x 29
+theorem and_sffMask (x : Nat) : x &&& sffMask = x % 2048 := Nat.and_two_pow_sub_one_eq_mod x 11
+theorem or_effFlag (y : Nat) (h : y < 536870912) : y ||| effFlag = y + effFlag := by
+  have e := or_two_pow_eq_orFlag y 31
+  have h0 : y / 2^31 % 2 = 0 := by
+    have : y / 2^31 = 0 := Nat.div_eq_of_lt (by omega)
+    omega
+  simp only [orFlag, h0] at e
+  simpa [effFlag] using e
+
+theorem evalBinop_band_nat (m n : Nat) : evalBinop .band (pint (m : Nat)) (pint (n : Nat)) = .ok (pint ((m &&& n : Nat) : Int)) := by
+  rw [evalBinop_band _ _ (Int.natCast_nonneg _) (Int.natCast_nonneg _)]; simp
+theorem evalBinop_bor_nat (m n : Nat) : evalBinop .bor (pint (m : Nat)) (pint (n : Nat)) = .ok (pint ((m ||| n : Nat) : Int)) :=
+  evalBinop_bor_asInt _ _ m n rfl rfl
+
+/-- the CAN identifier handed to the kernel: masked, with the EFF flag for a 29-bit identifier -/
+def canId (is29 : Bool) (i : Nat) : Nat := if is29 then i % 536870912 + effFlag else i % 2048
+
+
+/-! ### the object world of `bind`
+
+  * `interface ↦ ifc` (any scalar; a `str` is `.sc (.py (.str t))`), `address ↦ .meth "address"` (an opaque object);
+    `isinstance(interface, str)`, `isinstance(address, (isotp.Address, isotp.AsymmetricAddress))` and
+    `isinstance(address, isotp.AsymmetricAddress)` are `Meths.fn`s (`asym` says which class the address object is);
+  * the methods of the address object answer what the model's `Addr` says (each tied to its own source in `AddressFns.lean`);
+    those reached through `self.address` answer only AFTER `self.address = address` has been executed;
+  * `self.get_opts()` returns the opaque object `o` whose `o.optflag` is pre-bound to what `GeneralOpts.read` delivers (as in section 3);
+  * `socket_module.CAN_EFF_MASK / CAN_EFF_FLAG / CAN_SFF_MASK` and `self.flags.EXTEND_ADDR / RX_EXT_ADDR` are bound to the model's
+    constants (tied to the source by `Agree.SockConsts`);
+  * `self.set_opts(optflag=.., ext_address=.., rx_ext_address=..)` (a statement: `Meths.proc`): its outcome is the model's
+    `setOpts s` on exactly these keyword values (section 6 ties `set_opts` to `setOpts`); a successful call is recorded
+    (`#set_opts`, `set_opts.*`);
+  * `self._socket.bind((interface, rxid, txid))`: `bnd`; `recordBind` records the tuple, the number of calls (`#binds`) and how many
+    `set_opts` calls preceded it (`bind.#set_opts`); `failBind` fails distinctively. -/
+
+def bindEnv (s : Sock) (ifc : PV) : Env := fun k =>
+  match k with
+  | "interface" => some ifc
+  | "address" => some (.meth "address")
+  | "o.optflag" => some (pint ((parseOpts (layoutOpts s.k.opts)).flags : Nat))
+  | "isotp.TargetAddressType.Physical" => some (tatPV .physical)
+  | "socket_module.CAN_EFF_MASK" => some (pint (effMask : Nat))
+  | "socket_module.CAN_EFF_FLAG" => some (pint (effFlag : Nat))
+  | "socket_module.CAN_SFF_MASK" => some (pint (sffMask : Nat))
+  | "self.flags.EXTEND_ADDR" => some (pint (fEXTEND_ADDR : Nat))
+  | "self.flags.RX_EXT_ADDR" => some (pint (fRX_EXT_ADDR : Nat))
+  | "self.bound" => some (pbool s.bound)
+  | "#set_opts" => some (pint ((0 : Nat) : Int))
+  | "#binds" => some (pint ((0 : Nat) : Int))
+  | _ => constEnv k
+
+theorem bindEnv_lookups (s : Sock) (ifc : PV) :
+    bindEnv s ifc "interface" = some ifc ∧
+    bindEnv s ifc "address" = some (.meth "address") ∧
+    bindEnv s ifc "o.optflag" = some (pint ((parseOpts (layoutOpts s.k.opts)).flags : Nat)) ∧
+    bindEnv s ifc "isotp.TargetAddressType.Physical" = some (tatPV .physical) ∧
+    bindEnv s ifc "socket_module.CAN_EFF_MASK" = some (pint (effMask : Nat)) ∧
+    bindEnv s ifc "socket_module.CAN_EFF_FLAG" = some (pint (effFlag : Nat)) ∧
+    bindEnv s ifc "socket_module.CAN_SFF_MASK" = some (pint (sffMask : Nat)) ∧
+    bindEnv s ifc "self.flags.EXTEND_ADDR" = some (pint (fEXTEND_ADDR : Nat)) ∧
+    bindEnv s ifc "self.flags.RX_EXT_ADDR" = some (pint (fRX_EXT_ADDR : Nat)) ∧
+    bindEnv s ifc "#set_opts" = some (pint ((0 : Nat) : Int)) ∧
+    bindEnv s ifc "#binds" = some (pint ((0 : Nat) : Int)) := ⟨rfl, rfl, rfl, rfl, rfl, rfl, rfl, rfl, rfl, rfl, rfl⟩
+
+def nullary (args : List PV) (v : PV) : Except PErr PV :=
+  match args with
+  | [] => .ok v
+  | _ => .error (.unsupported "arity")
+
+def bindFn (a : Addr) (asym : Bool) (n : String) (args : List PV) (env : Env) : Except PErr PV :=
+  if n = "isinstance_str" then
+    (match args with
+     | [.sc (.py (.str _))] => .ok (pbool true)
+     | [_] => .ok (pbool false)
+     | _ => .error (.unsupported "arity"))
+  else if n = "isinstance_Address_AsymmetricAddress" then
+    (match args with
+     | [v] => .ok (pbool (v == .meth "address"))
+     | _ => .error (.unsupported "arity"))
+  else if n = "isinstance_AsymmetricAddress" then
+    (match args with
+     | [v] => if v = .meth "address" then .ok (pbool asym) else .error (.unsupported "isinstance: not the address object")
+     | _ => .error (.unsupported "arity"))
+  else if n = "address.requires_rx_extension_byte" then nullary args (pbool a.rx.mode.hasPrefix)
+  else if n = "address.requires_tx_extension_byte" then nullary args (pbool a.tx.mode.hasPrefix)
+  else if n = "self.get_opts" then nullary args (.meth "o")
+  else if env "self.address" = some (.meth "address") then
+    if n = "self.address.get_rx_arbitration_id" then
+      (match args with
+       | [t] => if t = tatPV .physical then .ok (pint ((a.rx.rxId .physical : Nat) : Int)) else .error (.unsupported "address type")
+       | _ => .error (.unsupported "arity"))
+    else if n = "self.address.get_tx_arbitration_id" then
+      (match args with
+       | [t] => if t = tatPV .physical then .ok (pint ((a.tx.txId .physical : Nat) : Int)) else .error (.unsupported "address type")
+       | _ => .error (.unsupported "arity"))
+    else if n = "self.address.is_rx_29bits" then nullary args (pbool a.rx.mode.is29)
+    else if n = "self.address.is_tx_29bits" then nullary args (pbool a.tx.mode.is29)
+    else if n = "self.address.requires_tx_extension_byte" then nullary args (pbool a.tx.mode.hasPrefix)
+    else if n = "self.address.requires_rx_extension_byte" then nullary args (pbool a.rx.mode.hasPrefix)
+    else if n = "self.address.get_tx_extension_byte" then nullary args (optPV a.tx.txExtByte)
+    else if n = "self.address.get_rx_extension_byte" then nullary args (optPV a.rx.rxExtByte)
+    else .error (.unsupported ("call " ++ n))
+  else .error (.unsupported ("call " ++ n))
+
+def setOpts3Name : String := "self.set_opts#optflag#ext_address#rx_ext_address"
+
+def bindProc (s : Sock) (bnd : List PV → Env → Except PErr Env) (n : String) (args : List PV) (env : Env) : Except PErr Env :=
+  if n = setOpts3Name then
+    match args with
+    | [.sc (.py f), .sc (.py x), .sc (.py y)] =>
+      match setOpts s { optflag := f, extAddress := x, rxExtAddress := y } with
+      | .error e => .error (.exc e)
+      | .ok _ =>
+        match env "#set_opts" with
+        | some (.sc (.py (.int c))) =>
+          .ok ((((env.set "set_opts.optflag" (.sc (.py f))).set "set_opts.ext_address" (.sc (.py x))).set
+            "set_opts.rx_ext_address" (.sc (.py y))).set "#set_opts" (pint (c + 1)))
+        | _ => .error (.unsupported "set_opts: no call counter")
+    | _ => .error (.unsupported "set_opts: arguments")
+  else if n = "self._socket.bind" then bnd args env
+  else .error (.unsupported ("call " ++ n))
+
+def recordBind : List PV → Env → Except PErr Env
+  | [.list [ifc, .py (.int r), .py (.int t)]], env =>
+    match env "#binds", env "#set_opts" with
+    | some (.sc (.py (.int c))), some k =>
+      .ok (((((env.set "bind.interface" (.sc ifc)).set "bind.rxid" (pint r)).set "bind.txid" (pint t)).set "bind.#set_opts" k).set
+        "#binds" (pint (c + 1)))
+    | _, _ => .error (.unsupported "_socket.bind: no call counter")
+  | _, _ => .error (.unsupported "_socket.bind: arguments")
+
+def failBind : List PV → Env → Except PErr Env := fun _ _ => .error (.unsupported "_socket.bind")
+
+def bindMeths (s : Sock) (a : Addr) (asym : Bool) (bnd : List PV → Env → Except PErr Env) : Meths where
+  fn := bindFn a asym
+  proc := bindProc s bnd
+
+/-! ### the model, restated -/
+
+def pyBindFlags (s : Sock) (a : Addr) : Nat :=
+  let fl := (parseOpts (layoutOpts s.k.opts)).flags
+  let fl := if a.tx.mode.hasPrefix then orFlag fl fEXTEND_ADDR else fl
+  if a.rx.mode.hasPrefix then orFlag fl fRX_EXT_ADDR else fl
+
+def pyBindArgs (s : Sock) (a : Addr) : OptsArgs :=
+  { optflag := .int (pyBindFlags s a), extAddress := optPy a.tx.txExtByte, rxExtAddress := optPy a.rx.rxExtByte }
+
+def bindRxid (a : Addr) : Nat := canId a.rx.mode.is29 (a.rx.rxId .physical)
+def bindTxid (a : Addr) : Nat := canId a.tx.mode.is29 (a.tx.txId .physical)
+
+/-- the socket after `self._socket.bind(..); self.bound = True` -/
+def afterBind (s : Sock) (a : Addr) : Sock :=
+  { s with bound := true, k := { s.k with bound := some (bindRxid a, bindTxid a) }, calls := .bind (bindRxid a) (bindTxid a) :: s.calls }
+
+theorem bind_eq (s : Sock) (a : Addr) (asym : Bool) : Sock.bind s a asym =
+    if asym && (a.rx.mode.hasPrefix != a.tx.mode.hasPrefix) then .error .ValueError else
+    if a.tx.mode.hasPrefix || a.rx.mode.hasPrefix then
+      match setOpts s (pyBindArgs s a) with
+      | .error e => .error e
+      | .ok r => .ok (afterBind r.1 a)
+    else .ok (afterBind s a) := by
+  unfold Sock.bind
+  cases asym && (a.rx.mode.hasPrefix != a.tx.mode.hasPrefix)
+  · cases htx : a.tx.mode.hasPrefix <;> cases hrx : a.rx.mode.hasPrefix <;>
+      simp only [pyBindArgs, pyBindFlags, htx, hrx, afterBind, bindRxid, bindTxid, canId] <;>
+      first | rfl | (cases setOpts s _ <;> rfl)
+  · rfl
+
+
+/-! ### the statements of `bind` -/
+
+def bindS0 : PStmt := .ite (.not_ (.call "isinstance_str" (.cons (.var "interface") .nil))) raiseVE .nil
+def bindS1 : PStmt := .ite (.not_ (.call "isinstance_Address_AsymmetricAddress" (.cons (.var "address") .nil))) raiseVE .nil
+def bindS2 : PStmt :=
+  .ite (.call "isinstance_AsymmetricAddress" (.cons (.var "address") .nil))
+    (.cons (.ite (.cmp .ne (.call "address.requires_rx_extension_byte" .nil) (.call "address.requires_tx_extension_byte" .nil))
+      raiseVE .nil) .nil) .nil
+def bindS3 : PStmt := .assign "self.interface" (.var "interface")
+def bindS4 : PStmt := .assign "self.address" (.var "address")
+def bindS5 : PStmt :=
+  .assign "rxid" (.call "self.address.get_rx_arbitration_id" (.cons (.var "isotp.TargetAddressType.Physical") .nil))
+def bindS6 : PStmt :=
+  .assign "txid" (.call "self.address.get_tx_arbitration_id" (.cons (.var "isotp.TargetAddressType.Physical") .nil))
+def maskStmt (is29 nm : String) : PStmt :=
+  .ite (.call is29 .nil)
+    (.cons (.assign nm (.binop .bor (.binop .band (.var nm) (.var "socket_module.CAN_EFF_MASK")) (.var "socket_module.CAN_EFF_FLAG"))) .nil)
+    (.cons (.assign nm (.binop .band (.var nm) (.var "socket_module.CAN_SFF_MASK"))) .nil)
+def bindS9body : PBlock :=
+  .cons (.assign "o" (.call "self.get_opts" .nil))
+  (.cons (.assert_ (.isNotNone (.var "o.optflag")))
+  (.cons (.ite (.call "self.address.requires_tx_extension_byte" .nil)
+    (.cons (.assign "o.optflag" (.binop .bor (.var "o.optflag") (.var "self.flags.EXTEND_ADDR"))) .nil) .nil)
+  (.cons (.ite (.call "self.address.requires_rx_extension_byte" .nil)
+    (.cons (.assign "o.optflag" (.binop .bor (.var "o.optflag") (.var "self.flags.RX_EXT_ADDR"))) .nil) .nil)
+  (.cons (.expr (.call setOpts3Name (.cons (.var "o.optflag") (.cons (.call "self.address.get_tx_extension_byte" .nil)
+    (.cons (.call "self.address.get_rx_extension_byte" .nil) .nil))))) .nil))))
+def bindS9 : PStmt :=
+  .ite (.or_ (.call "self.address.requires_tx_extension_byte" .nil) (.call "self.address.requires_rx_extension_byte" .nil))
+    bindS9body .nil
+def bindS10 : PStmt :=
+  .expr (.call "self._socket.bind" (.cons (.lst (.cons (.var "interface") (.cons (.var "rxid") (.cons (.var "txid") .nil)))) .nil))
+def bindS11 : PStmt := .assign "self.bound" .tt
+
+theorem bind_body_eq : Src.socket_bind =
+    .cons bindS0 (.cons bindS1 (.cons bindS2 (.cons bindS3 (.cons bindS4 (.cons bindS5 (.cons bindS6
+    (.cons (maskStmt "self.address.is_rx_29bits" "rxid") (.cons (maskStmt "self.address.is_tx_29bits" "txid")
+    (.cons bindS9 (.cons bindS10 (.cons bindS11 .nil))))))))))) := rfl
+
+/-- a call of a name that is not a builtin, on evaluated arguments -/
+theorem eval_call_meth (M : Meths) (env : Env) (fn : String) (args : PArgs) (vs : List PV)
+    (ha : evalArgs M env args = .ok vs) (hb : evalBuiltin fn vs = none) :
+    eval M env (.call fn args) = M.fn fn vs env := by
+  simp [eval, ha, hb]
+
+theorem evalArgs_nil (M : Meths) (env : Env) : evalArgs M env .nil = .ok [] := by simp [evalArgs]
+theorem evalArgs_var1 (M : Meths) (env : Env) (nm : String) (v : PV) (h : env nm = some v) :
+    evalArgs M env (.cons (.var nm) .nil) = .ok [v] := by simp [evalArgs, eval, h]
+
+section bindStmts
+variable (s : Sock) (a : Addr) (asym : Bool) (bnd : List PV → Env → Except PErr Env)
+
+theorem eb_bind_names (vs : List PV) :
+    evalBuiltin "isinstance_str" vs = none ∧ evalBuiltin "isinstance_Address_AsymmetricAddress" vs = none ∧
+    evalBuiltin "isinstance_AsymmetricAddress" vs = none ∧ evalBuiltin "address.requires_rx_extension_byte" vs = none ∧
+    evalBuiltin "address.requires_tx_extension_byte" vs = none ∧ evalBuiltin "self.get_opts" vs = none ∧
+    evalBuiltin "self.address.get_rx_arbitration_id" vs = none ∧ evalBuiltin "self.address.get_tx_arbitration_id" vs = none ∧
+    evalBuiltin "self.address.is_rx_29bits" vs = none ∧ evalBuiltin "self.address.is_tx_29bits" vs = none ∧
+    evalBuiltin "self.address.requires_tx_extension_byte" vs = none ∧
+    evalBuiltin "self.address.requires_rx_extension_byte" vs = none ∧
+    evalBuiltin "self.address.get_tx_extension_byte" vs = none ∧ evalBuiltin "self.address.get_rx_extension_byte" vs = none ∧
+    evalBuiltin setOpts3Name vs = none ∧ evalBuiltin "self._socket.bind" vs = none :=
+  ⟨evalBuiltin_none_of _ _ (by decide), evalBuiltin_none_of _ _ (by decide), evalBuiltin_none_of _ _ (by decide),
+   evalBuiltin_none_of _ _ (by decide), evalBuiltin_none_of _ _ (by decide), evalBuiltin_none_of _ _ (by decide),
+   evalBuiltin_none_of _ _ (by decide), evalBuiltin_none_of _ _ (by decide), evalBuiltin_none_of _ _ (by decide),
+   evalBuiltin_none_of _ _ (by decide), evalBuiltin_none_of _ _ (by decide), evalBuiltin_none_of _ _ (by decide),
+   evalBuiltin_none_of _ _ (by decide), evalBuiltin_none_of _ _ (by decide), evalBuiltin_none_of _ _ (by decide),
+   evalBuiltin_none_of _ _ (by decide)⟩
+
+/-- `if not isinstance(interface, str): raise ValueError` -/
+theorem bindS0_exec (env : Env) (t : Nat) (h : env "interface" = some (.sc (.py (.str t)))) :
+    execStmt (bindMeths s a asym bnd) env bindS0 = .ok (.next env) := by
+  simp [bindS0, execStmt, execBlock, eval, evalArgs, h, eb_bind_names, bindMeths, bindFn]
+
+/-- ... and it does raise for anything that is not a `str` (a fact about the source only; the model has no such argument) -/
+theorem bindS0_exec_nonstr (env : Env) (v : PV) (h : env "interface" = some v) (hv : ∀ t, v ≠ .sc (.py (.str t))) :
+    execStmt (bindMeths s a asym bnd) env bindS0 = .error (.exc .ValueError) := by
+  have f : bindFn a asym "isinstance_str" [v] env = .ok (pbool false) := by
+    simp only [bindFn, if_true]  -- the match is decided with `hv`
+  simp [bindS0, raiseVE, execStmt, execBlock, eval, evalArgs, h, eb_bind_names, bindMeths, f]
+
+theorem bindS1_exec (env : Env) (h : env "address" = some (.meth "address")) :
+    execStmt (bindMeths s a asym bnd) env bindS1 = .ok (.next env) := by
+  simp [bindS1, execStmt, execBlock, eval, evalArgs, h, eb_bind_names, bindMeths, bindFn]
+
+theorem bindS2_exec (env : Env) (h : env "address" = some (.meth "address")) :
+    execStmt (bindMeths s a asym bnd) env bindS2 =
+      if asym && (a.rx.mode.hasPrefix != a.tx.mode.hasPrefix) then .error (.exc .ValueError) else .ok (.next env) := by
+  cases asym <;> cases hr : a.rx.mode.hasPrefix <;> cases ht : a.tx.mode.hasPrefix <;>
+    simp [bindS2, raiseVE, execStmt, execBlock, eval, evalArgs, h, eb_bind_names, bindMeths, bindFn, nullary, hr, ht]
+
+theorem bindS5_exec (env : Env) (h1 : env "self.address" = some (.meth "address"))
+    (h2 : env "isotp.TargetAddressType.Physical" = some (tatPV .physical)) :
+    execStmt (bindMeths s a asym bnd) env bindS5 = .ok (.next (env.set "rxid" (pint ((a.rx.rxId .physical : Nat) : Int)))) := by
+  simp [bindS5, execStmt, eval, evalArgs, h1, h2, eb_bind_names, bindMeths, bindFn]
+
+theorem bindS6_exec (env : Env) (h1 : env "self.address" = some (.meth "address"))
+    (h2 : env "isotp.TargetAddressType.Physical" = some (tatPV .physical)) :
+    execStmt (bindMeths s a asym bnd) env bindS6 = .ok (.next (env.set "txid" (pint ((a.tx.txId .physical : Nat) : Int)))) := by
+  simp [bindS6, execStmt, eval, evalArgs, h1, h2, eb_bind_names, bindMeths, bindFn]
+
+/-- `if <is 29 bits>: id = (id & CAN_EFF_MASK) | CAN_EFF_FLAG else: id = id & CAN_SFF_MASK` -/
+theorem maskStmt_exec (M : Meths) (env : Env) (is29 nm : String) (b : Bool) (i : Nat)
+    (hc : eval M env (.call is29 .nil) = .ok (pbool b)) (hi : env nm = some (pint (i : Nat)))
+    (h1 : env "socket_module.CAN_EFF_MASK" = some (pint (effMask : Nat)))
+    (h2 : env "socket_module.CAN_EFF_FLAG" = some (pint (effFlag : Nat)))
+    (h3 : env "socket_module.CAN_SFF_MASK" = some (pint (sffMask : Nat))) :
+    execStmt M env (maskStmt is29 nm) = .ok (.next (env.set nm (pint ((canId b i : Nat) : Int)))) := by
+  have e29 : eval M env (.binop .bor (.binop .band (.var nm) (.var "socket_module.CAN_EFF_MASK")) (.var "socket_module.CAN_EFF_FLAG")) =
+      .ok (pint ((i % 536870912 + effFlag : Nat) : Int)) := by
+    have hlt : i % 536870912 < 536870912 := Nat.mod_lt _ (by decide)
+    simp only [eval, hi, h1, h2, ok_bind, evalBinop_band_nat, evalBinop_bor_nat, and_effMask, or_effFlag _ hlt]
+  have e11 : eval M env (.binop .band (.var nm) (.var "socket_module.CAN_SFF_MASK")) = .ok (pint ((i % 2048 : Nat) : Int)) := by
+    simp only [eval, hi, h3, ok_bind, evalBinop_band_nat, and_sffMask]
+  cases b <;> simp [maskStmt, execStmt, execBlock, hc, e29, e11, canId]
+
+theorem eval_is_rx_29bits (env : Env) (h : env "self.address" = some (.meth "address")) :
+    eval (bindMeths s a asym bnd) env (.call "self.address.is_rx_29bits" .nil) = .ok (pbool a.rx.mode.is29) := by
+  simp [eval, evalArgs, h, eb_bind_names, bindMeths, bindFn, nullary]
+theorem eval_is_tx_29bits (env : Env) (h : env "self.address" = some (.meth "address")) :
+    eval (bindMeths s a asym bnd) env (.call "self.address.is_tx_29bits" .nil) = .ok (pbool a.tx.mode.is29) := by
+  simp [eval, evalArgs, h, eb_bind_names, bindMeths, bindFn, nullary]
+theorem eval_requires_tx (env : Env) (h : env "self.address" = some (.meth "address")) :
+    eval (bindMeths s a asym bnd) env (.call "self.address.requires_tx_extension_byte" .nil) = .ok (pbool a.tx.mode.hasPrefix) := by
+  simp [eval, evalArgs, h, eb_bind_names, bindMeths, bindFn, nullary]
+theorem eval_requires_rx (env : Env) (h : env "self.address" = some (.meth "address")) :
+    eval (bindMeths s a asym bnd) env (.call "self.address.requires_rx_extension_byte" .nil) = .ok (pbool a.rx.mode.hasPrefix) := by
+  simp [eval, evalArgs, h, eb_bind_names, bindMeths, bindFn, nullary]
+theorem eval_get_tx_ext (env : Env) (h : env "self.address" = some (.meth "address")) :
+    eval (bindMeths s a asym bnd) env (.call "self.address.get_tx_extension_byte" .nil) = .ok (optPV a.tx.txExtByte) := by
+  simp [eval, evalArgs, h, eb_bind_names, bindMeths, bindFn, nullary]
+theorem eval_get_rx_ext (env : Env) (h : env "self.address" = some (.meth "address")) :
+    eval (bindMeths s a asym bnd) env (.call "self.address.get_rx_extension_byte" .nil) = .ok (optPV a.rx.rxExtByte) := by
+  simp [eval, evalArgs, h, eb_bind_names, bindMeths, bindFn, nullary]
+theorem eval_get_opts (env : Env) :
+    eval (bindMeths s a asym bnd) env (.call "self.get_opts" .nil) = .ok (.meth "o") := by
+  simp [eval, evalArgs, eb_bind_names, bindMeths, bindFn, nullary]
+
+theorem optPV_eq_optPy (o : Option Nat) : optPV o = .sc (.py (optPy o)) := by cases o <;> rfl
+
+/-- `if <c>: o.optflag |= <fl>` -/
+theorem condOrflag_exec (M : Meths) (env : Env) (c : PExpr) (fl : String) (b : Bool) (x : PV) (n f : Nat)
+    (hc : eval M env c = .ok (pbool b)) (hx : env "o.optflag" = some x) (hxi : asInt x = some (n : Int))
+    (hf : env fl = some (pint (f : Nat))) :
+    execStmt M env (.ite c (.cons (.assign "o.optflag" (.binop .bor (.var "o.optflag") (.var fl))) .nil) .nil) =
+      .ok (.next (if b then env.set "o.optflag" (pint ((n ||| f : Nat) : Int)) else env)) := by
+  have ho := exec_orflag M env fl x n f hx hxi hf
+  cases b
+  · simp [execStmt, execBlock, hc]
+  · rw [execStmt]
+    simp [hc, execBlock, ho]
+
+/-- the environment after a successful `self.set_opts(optflag=fl, ext_address=x, rx_ext_address=y)` -/
+def recordSetOpts (env : Env) (fl : Nat) (x y : Option Nat) : Env :=
+  (((env.set "set_opts.optflag" (pint (fl : Nat))).set "set_opts.ext_address" (optPV x)).set "set_opts.rx_ext_address" (optPV y)).set
+    "#set_opts" (pint ((1 : Nat) : Int))
+
+theorem setOpts3_proc (env : Env) (fl : Nat) (x y : Option Nat) (h : env "#set_opts" = some (pint ((0 : Nat) : Int))) :
+    bindProc s bnd setOpts3Name [pint (fl : Nat), optPV x, optPV y] env =
+      match setOpts s { optflag := .int fl, extAddress := optPy x, rxExtAddress := optPy y } with
+      | .error e => .error (.exc e)
+      | .ok _ => .ok (recordSetOpts env fl x y) := by
+  simp only [bindProc, if_true, optPV_eq_optPy, recordSetOpts, h]
+  cases setOpts s { optflag := .int fl, extAddress := optPy x, rxExtAddress := optPy y } <;> rfl
+
+/-- `self.set_opts(optflag=o.optflag, ext_address=self.address.get_tx_extension_byte(), rx_ext_address=...get_rx_extension_byte())` -/
+theorem setOpts3_stmt_exec (env : Env) (fl : Nat) (h1 : env "self.address" = some (.meth "address"))
+    (h2 : env "o.optflag" = some (pint (fl : Nat))) (h : env "#set_opts" = some (pint ((0 : Nat) : Int))) :
+    execStmt (bindMeths s a asym bnd) env (.expr (.call setOpts3Name (.cons (.var "o.optflag")
+      (.cons (.call "self.address.get_tx_extension_byte" .nil) (.cons (.call "self.address.get_rx_extension_byte" .nil) .nil))))) =
+      match setOpts s { optflag := .int fl, extAddress := optPy a.tx.txExtByte, rxExtAddress := optPy a.rx.rxExtByte } with
+      | .error e => .error (.exc e)
+      | .ok _ => .ok (.next (recordSetOpts env fl a.tx.txExtByte a.rx.rxExtByte)) := by
+  have ha : evalArgs (bindMeths s a asym bnd) env (.cons (.var "o.optflag")
+      (.cons (.call "self.address.get_tx_extension_byte" .nil) (.cons (.call "self.address.get_rx_extension_byte" .nil) .nil))) =
+      .ok [pint (fl : Nat), optPV a.tx.txExtByte, optPV a.rx.rxExtByte] := by
+    simp only [evalArgs, eval_get_tx_ext s a asym bnd env h1, eval_get_rx_ext s a asym bnd env h1, ok_bind]
+    simp [eval, h2]
+  have hp := setOpts3_proc s bnd env fl a.tx.txExtByte a.rx.rxExtByte h
+  simp only [execStmt, ha, ok_bind, (eb_bind_names _).2.2.2.2.2.2.2.2.2.2.2.2.2.2.1]
+  show ((bindProc s bnd setOpts3Name _ env) >>= _) = _
+  rw [hp]
+  cases setOpts s { optflag := .int fl, extAddress := optPy a.tx.txExtByte, rxExtAddress := optPy a.rx.rxExtByte } <;> rfl
+
+theorem eval_or_bool (M : Meths) (env : Env) (c1 c2 : PExpr) (b1 b2 : Bool) (h1 : eval M env c1 = .ok (pbool b1))
+    (h2 : eval M env c2 = .ok (pbool b2)) : eval M env (.or_ c1 c2) = .ok (pbool (b1 || b2)) := by
+  rw [eval]
+  cases b1 <;> simp [h1, h2]
+
+theorem exec_ite_bool (M : Meths) (env : Env) (c : PExpr) (t e : PBlock) (b : Bool) (h : eval M env c = .ok (pbool b)) :
+    execStmt M env (.ite c t e) = if b then execBlock M env t else execBlock M env e := by
+  rw [execStmt]
+  cases b <;> simp [h]
+
+/-- `if <c>: o.optflag |= <fl>`, on an `int` attribute -/
+theorem condOrflag_exec' (M : Meths) (env : Env) (c : PExpr) (fl : String) (b : Bool) (n f : Nat)
+    (hc : eval M env c = .ok (pbool b)) (hx : env "o.optflag" = some (pint (n : Nat))) (hf : env fl = some (pint (f : Nat))) :
+    ∃ env', execStmt M env (.ite c (.cons (.assign "o.optflag" (.binop .bor (.var "o.optflag") (.var fl))) .nil) .nil) =
+        .ok (.next env') ∧ EqOff ["o.optflag"] env env' ∧
+      env' "o.optflag" = some (pint ((if b then n ||| f else n : Nat) : Int)) := by
+  have x := condOrflag_exec M env c fl b _ n f hc hx rfl hf
+  cases b
+  · exact ⟨env, by simpa using x, EqOff.refl _ _, by simpa using hx⟩
+  · exact ⟨_, by simpa using x, (EqOff.refl _ _).set _ _ (by decide), by simp [Env.set]⟩
+
+/-- the flags `bind` asks for, from the current ones -/
+def flagsWith (f0 : Nat) (a : Addr) : Nat :=
+  let fl := if a.tx.mode.hasPrefix then orFlag f0 fEXTEND_ADDR else f0
+  if a.rx.mode.hasPrefix then orFlag fl fRX_EXT_ADDR else fl
+
+theorem pyBindFlags_eq (a : Addr) : pyBindFlags s a = flagsWith (parseOpts (layoutOpts s.k.opts)).flags a := rfl
+
+theorem flagsWith_eq (f0 : Nat) (a : Addr) :
+    (if a.rx.mode.hasPrefix then (if a.tx.mode.hasPrefix then f0 ||| fEXTEND_ADDR else f0) ||| fRX_EXT_ADDR
+      else (if a.tx.mode.hasPrefix then f0 ||| fEXTEND_ADDR else f0)) = flagsWith f0 a := by
+  have e1 : ∀ x, x ||| fEXTEND_ADDR = orFlag x fEXTEND_ADDR := or_EXTEND_ADDR
+  have e2 : ∀ x, x ||| fRX_EXT_ADDR = orFlag x fRX_EXT_ADDR := or_RX_EXT_ADDR
+  simp only [flagsWith, e1, e2]
+
+/-- the body of `if requires_tx or requires_rx:` -/
+theorem bindS9body_exec (env : Env) (f0 : Nat) (h1 : env "self.address" = some (.meth "address"))
+    (h2 : env "o.optflag" = some (pint (f0 : Nat)))
+    (h3 : env "self.flags.EXTEND_ADDR" = some (pint (fEXTEND_ADDR : Nat)))
+    (h4 : env "self.flags.RX_EXT_ADDR" = some (pint (fRX_EXT_ADDR : Nat)))
+    (h5 : env "#set_opts" = some (pint ((0 : Nat) : Int))) :
+    ∃ envO, EqOff ["o", "o.optflag"] env envO ∧
+      execBlock (bindMeths s a asym bnd) env bindS9body =
+        match setOpts s { optflag := .int (flagsWith f0 a), extAddress := optPy a.tx.txExtByte, rxExtAddress := optPy a.rx.rxExtByte } with
+        | .error e => .error (.exc e)
+        | .ok _ => .ok (.next (recordSetOpts envO (flagsWith f0 a) a.tx.txExtByte a.rx.rxExtByte)) := by
+  -- o = self.get_opts()
+  have o1 : EqOff ["o"] env (env.set "o" (.meth "o")) := (EqOff.refl _ _).set _ _ (by decide)
+  have x1 : execStmt (bindMeths s a asym bnd) env (.assign "o" (.call "self.get_opts" .nil)) =
+      .ok (.next (env.set "o" (.meth "o"))) := by
+    rw [execStmt, eval_get_opts]; rfl
+  generalize env.set "o" (.meth "o") = env1 at o1 x1
+  -- assert o.optflag is not None
+  have l1 : env1 "o.optflag" = some (pint (f0 : Nat)) := (o1 _ (by decide)).trans h2
+  have x2 : execStmt (bindMeths s a asym bnd) env1 (.assert_ (.isNotNone (.var "o.optflag"))) = .ok (.next env1) := by
+    simp [execStmt, eval, l1, pnone, pint]
+  have a1 : env1 "self.address" = some (.meth "address") := (o1 _ (by decide)).trans h1
+  -- if requires_tx: o.optflag |= EXTEND_ADDR
+  obtain ⟨env2, x3, o2, l2⟩ := condOrflag_exec' (bindMeths s a asym bnd) env1 _ "self.flags.EXTEND_ADDR" _ f0 fEXTEND_ADDR
+    (eval_requires_tx s a asym bnd env1 a1) l1 ((o1 _ (by decide)).trans h3)
+  have a2 : env2 "self.address" = some (.meth "address") := (o2 _ (by decide)).trans a1
+  -- if requires_rx: o.optflag |= RX_EXT_ADDR
+  obtain ⟨env3, x4, o3, l3⟩ := condOrflag_exec' (bindMeths s a asym bnd) env2 _ "self.flags.RX_EXT_ADDR" _ _ fRX_EXT_ADDR
+    (eval_requires_rx s a asym bnd env2 a2) l2 ((o2 _ (by decide)).trans ((o1 _ (by decide)).trans h4))
+  rw [flagsWith_eq] at l3
+  have a3 : env3 "self.address" = some (.meth "address") := (o3 _ (by decide)).trans a2
+  have c3 : env3 "#set_opts" = some (pint ((0 : Nat) : Int)) :=
+    (o3 _ (by decide)).trans ((o2 _ (by decide)).trans ((o1 _ (by decide)).trans h5))
+  have x5 := setOpts3_stmt_exec s a asym bnd env3 (flagsWith f0 a) a3 l3 c3
+  refine ⟨env3, (o1.mono (by decide)).trans ((o2.mono (by decide)).trans (o3.mono (by decide))), ?_⟩
+  rw [bindS9body, execBlock_cons_ok _ _ _ _ _ x1, execBlock_cons_ok _ _ _ _ _ x2, execBlock_cons_ok _ _ _ _ _ x3,
+    execBlock_cons_ok _ _ _ _ _ x4, execBlock, x5]
+  cases setOpts s { optflag := .int (flagsWith f0 a), extAddress := optPy a.tx.txExtByte, rxExtAddress := optPy a.rx.rxExtByte } <;> rfl
+
+/-- `if requires_tx or requires_rx: ...` -/
+theorem bindS9_exec (env : Env) (f0 : Nat) (h1 : env "self.address" = some (.meth "address"))
+    (h2 : env "o.optflag" = some (pint (f0 : Nat)))
+    (h3 : env "self.flags.EXTEND_ADDR" = some (pint (fEXTEND_ADDR : Nat)))
+    (h4 : env "self.flags.RX_EXT_ADDR" = some (pint (fRX_EXT_ADDR : Nat)))
+    (h5 : env "#set_opts" = some (pint ((0 : Nat) : Int))) :
+    ∃ envO, EqOff ["o", "o.optflag"] env envO ∧
+      execStmt (bindMeths s a asym bnd) env bindS9 =
+        if a.tx.mode.hasPrefix || a.rx.mode.hasPrefix then
+          match setOpts s { optflag := .int (flagsWith f0 a), extAddress := optPy a.tx.txExtByte, rxExtAddress := optPy a.rx.rxExtByte } with
+          | .error e => .error (.exc e)
+          | .ok _ => .ok (.next (recordSetOpts envO (flagsWith f0 a) a.tx.txExtByte a.rx.rxExtByte))
+        else .ok (.next env) := by
+  obtain ⟨envO, hoff, hx⟩ := bindS9body_exec s a asym bnd env f0 h1 h2 h3 h4 h5
+  refine ⟨envO, hoff, ?_⟩
+  rw [bindS9, exec_ite_bool _ env _ _ _ _ (eval_or_bool _ env _ _ _ _ (eval_requires_tx s a asym bnd env h1)
+    (eval_requires_rx s a asym bnd env h1)), hx]
+  cases a.tx.mode.hasPrefix || a.rx.mode.hasPrefix <;> simp [execBlock]
+
+/-- `self._socket.bind((interface, rxid, txid))` -/
+theorem bindS10_exec (env : Env) (c : Sc) (r t : Nat) (h1 : env "interface" = some (.sc c))
+    (h2 : env "rxid" = some (pint (r : Nat))) (h3 : env "txid" = some (pint (t : Nat))) :
+    execStmt (bindMeths s a asym bnd) env bindS10 =
+      (bnd [.list [c, .py (.int r), .py (.int t)]] env >>= fun e => .ok (.next e)) := by
+  have hl : eval (bindMeths s a asym bnd) env (.lst (.cons (.var "interface") (.cons (.var "rxid") (.cons (.var "txid") .nil)))) =
+      .ok (.list [c, .py (.int r), .py (.int t)]) := by
+    simp only [eval, evalArgs, h1, h2, h3, ok_bind]
+    rfl
+  simp only [bindS10, execStmt, evalArgs, hl, ok_bind, (eb_bind_names _).2.2.2.2.2.2.2.2.2.2.2.2.2.2.2]
+  simp [bindMeths, bindProc, setOpts3Name]
+
+/-- the last two statements, for any `_socket.bind` -/
+theorem bind_tail_exec (env : Env) (c : Sc) (r t : Nat) (h1 : env "interface" = some (.sc c))
+    (h2 : env "rxid" = some (pint (r : Nat))) (h3 : env "txid" = some (pint (t : Nat))) :
+    execBlock (bindMeths s a asym bnd) env (.cons bindS10 (.cons bindS11 .nil)) =
+      (bnd [.list [c, .py (.int r), .py (.int t)]] env >>= fun e => .ok (.next (e.set "self.bound" (pbool true)))) := by
+  rw [execBlock, bindS10_exec s a asym bnd env c r t h1 h2 h3]
+  cases bnd [.list [c, .py (.int r), .py (.int t)]] env with
+  | error e => rfl
+  | ok e => simp [execBlock, bindS11, execStmt, eval]
+
+/-- the environment after `self._socket.bind((c, r, t))` has been recorded, `k` being the number of `set_opts` calls so far -/
+def recordBindEnv (env : Env) (c : Sc) (r t : Nat) (k : PV) : Env :=
+  ((((env.set "bind.interface" (.sc c)).set "bind.rxid" (pint (r : Nat))).set "bind.txid" (pint (t : Nat))).set "bind.#set_opts" k).set
+    "#binds" (pint ((1 : Nat) : Int))
+
+theorem recordBind_at (env : Env) (c : Sc) (r t : Nat) (k : PV) (h1 : env "#binds" = some (pint ((0 : Nat) : Int)))
+    (h2 : env "#set_opts" = some k) :
+    recordBind [.list [c, .py (.int r), .py (.int t)]] env = .ok (recordBindEnv env c r t k) := by
+  simp [recordBind, h1, h2, recordBindEnv]
+
+/-- names `bind` assigns before the `set_opts` block -/
+def bindKeys8 : List String := ["self.interface", "self.address", "rxid", "txid"]
+
+/-- the run up to the last two statements, for any `_socket.bind` (none is executed) -/
+theorem bind_run (t : Nat) :
+    ∃ env8 envO, EqOff bindKeys8 (bindEnv s (.sc (.py (.str t)))) env8 ∧
+      env8 "self.interface" = some (.sc (.py (.str t))) ∧ env8 "self.address" = some (.meth "address") ∧
+      env8 "rxid" = some (pint (bindRxid a : Nat)) ∧ env8 "txid" = some (pint (bindTxid a : Nat)) ∧
+      EqOff ["o", "o.optflag"] env8 envO ∧
+      execBlock (bindMeths s a asym bnd) (bindEnv s (.sc (.py (.str t)))) Src.socket_bind =
+        if asym && (a.rx.mode.hasPrefix != a.tx.mode.hasPrefix) then .error (.exc .ValueError) else
+        if a.tx.mode.hasPrefix || a.rx.mode.hasPrefix then
+          match setOpts s (pyBindArgs s a) with
+          | .error e => .error (.exc e)
+          | .ok _ => execBlock (bindMeths s a asym bnd) (recordSetOpts envO (pyBindFlags s a) a.tx.txExtByte a.rx.rxExtByte)
+              (.cons bindS10 (.cons bindS11 .nil))
+        else execBlock (bindMeths s a asym bnd) env8 (.cons bindS10 (.cons bindS11 .nil)) := by
+  obtain ⟨k0, k1, k2, k3, k4, k5, k6, k7, k8, k9, k10⟩ := bindEnv_lookups s (.sc (.py (.str t)))
+  generalize bindEnv s (.sc (.py (.str t))) = env0 at *
+  -- the assignments
+  have o3 : EqOff bindKeys8 env0 (env0.set "self.interface" (.sc (.py (.str t)))) := (EqOff.refl _ _).set _ _ (by decide)
+  have x3 : execStmt (bindMeths s a asym bnd) env0 bindS3 = _ :=
+    exec_assign_var (bindMeths s a asym bnd) env0 "self.interface" "interface" _ k0
+  have i3 := Env.set_self env0 "self.interface" (.sc (.py (.str t)))
+  generalize env0.set "self.interface" (.sc (.py (.str t))) = env3 at *
+  have o4 : EqOff bindKeys8 env0 (env3.set "self.address" (.meth "address")) := o3.set _ _ (by decide)
+  have x4 : execStmt (bindMeths s a asym bnd) env3 bindS4 = _ :=
+    exec_assign_var (bindMeths s a asym bnd) env3 "self.address" "address" _ ((o3 _ (by decide)).trans k1)
+  have i4 : (env3.set "self.address" (.meth "address")) "self.interface" = _ := (Env.set_ne _ _ _ _ (by decide)).trans i3
+  have a4 := Env.set_self env3 "self.address" (.meth "address")
+  generalize env3.set "self.address" (.meth "address") = env4 at *
+  have x5 := bindS5_exec s a asym bnd env4 a4 ((o4 _ (by decide)).trans k3)
+  have o5 : EqOff bindKeys8 env0 (env4.set "rxid" (pint ((a.rx.rxId .physical : Nat) : Int))) := o4.set _ _ (by decide)
+  have i5 : (env4.set "rxid" (pint ((a.rx.rxId .physical : Nat) : Int))) "self.interface" = _ := (Env.set_ne _ _ _ _ (by decide)).trans i4
+  have a5 : (env4.set "rxid" (pint ((a.rx.rxId .physical : Nat) : Int))) "self.address" = _ := (Env.set_ne _ _ _ _ (by decide)).trans a4
+  have r5 := Env.set_self env4 "rxid" (pint ((a.rx.rxId .physical : Nat) : Int))
+  generalize env4.set "rxid" (pint ((a.rx.rxId .physical : Nat) : Int)) = env5 at *
+  have x6 := bindS6_exec s a asym bnd env5 a5 ((o5 _ (by decide)).trans k3)
+  have o6 : EqOff bindKeys8 env0 (env5.set "txid" (pint ((a.tx.txId .physical : Nat) : Int))) := o5.set _ _ (by decide)
+  have i6 : (env5.set "txid" (pint ((a.tx.txId .physical : Nat) : Int))) "self.interface" = _ := (Env.set_ne _ _ _ _ (by decide)).trans i5
+  have a6 : (env5.set "txid" (pint ((a.tx.txId .physical : Nat) : Int))) "self.address" = _ := (Env.set_ne _ _ _ _ (by decide)).trans a5
+  have r6 : (env5.set "txid" (pint ((a.tx.txId .physical : Nat) : Int))) "rxid" = _ := (Env.set_ne _ _ _ _ (by decide)).trans r5
+  have t6 := Env.set_self env5 "txid" (pint ((a.tx.txId .physical : Nat) : Int))
+  generalize env5.set "txid" (pint ((a.tx.txId .physical : Nat) : Int)) = env6 at *
+  -- the masks
+  have x7 := maskStmt_exec (bindMeths s a asym bnd) env6 "self.address.is_rx_29bits" "rxid" _ _
+    (eval_is_rx_29bits s a asym bnd env6 a6) r6 ((o6 _ (by decide)).trans k4) ((o6 _ (by decide)).trans k5) ((o6 _ (by decide)).trans k6)
+  have o7 : EqOff bindKeys8 env0 (env6.set "rxid" (pint ((canId a.rx.mode.is29 (a.rx.rxId .physical) : Nat) : Int))) := o6.set _ _ (by decide)
+  have i7 : (env6.set "rxid" (pint ((canId a.rx.mode.is29 (a.rx.rxId .physical) : Nat) : Int))) "self.interface" = _ :=
+    (Env.set_ne _ _ _ _ (by decide)).trans i6
+  have a7 : (env6.set "rxid" (pint ((canId a.rx.mode.is29 (a.rx.rxId .physical) : Nat) : Int))) "self.address" = _ :=
+    (Env.set_ne _ _ _ _ (by decide)).trans a6
+  have t7 : (env6.set "rxid" (pint ((canId a.rx.mode.is29 (a.rx.rxId .physical) : Nat) : Int))) "txid" = _ :=
+    (Env.set_ne _ _ _ _ (by decide)).trans t6
+  have r7 := Env.set_self env6 "rxid" (pint ((canId a.rx.mode.is29 (a.rx.rxId .physical) : Nat) : Int))
+  generalize env6.set "rxid" (pint ((canId a.rx.mode.is29 (a.rx.rxId .physical) : Nat) : Int)) = env7 at *
+  have x8 := maskStmt_exec (bindMeths s a asym bnd) env7 "self.address.is_tx_29bits" "txid" _ _
+    (eval_is_tx_29bits s a asym bnd env7 a7) t7 ((o7 _ (by decide)).trans k4) ((o7 _ (by decide)).trans k5) ((o7 _ (by decide)).trans k6)
+  have o8 : EqOff bindKeys8 env0 (env7.set "txid" (pint ((canId a.tx.mode.is29 (a.tx.txId .physical) : Nat) : Int))) := o7.set _ _ (by decide)
+  have i8 : (env7.set "txid" (pint ((canId a.tx.mode.is29 (a.tx.txId .physical) : Nat) : Int))) "self.interface" = _ :=
+    (Env.set_ne _ _ _ _ (by decide)).trans i7
+  have a8 : (env7.set "txid" (pint ((canId a.tx.mode.is29 (a.tx.txId .physical) : Nat) : Int))) "self.address" = _ :=
+    (Env.set_ne _ _ _ _ (by decide)).trans a7
+  have r8 : (env7.set "txid" (pint ((canId a.tx.mode.is29 (a.tx.txId .physical) : Nat) : Int))) "rxid" = _ :=
+    (Env.set_ne _ _ _ _ (by decide)).trans r7
+  have t8 := Env.set_self env7 "txid" (pint ((canId a.tx.mode.is29 (a.tx.txId .physical) : Nat) : Int))
+  generalize env7.set "txid" (pint ((canId a.tx.mode.is29 (a.tx.txId .physical) : Nat) : Int)) = env8 at *
+  -- the `set_opts` block
+  obtain ⟨envO, oO, x9⟩ := bindS9_exec s a asym bnd env8 _ a8 ((o8 _ (by decide)).trans k2) ((o8 _ (by decide)).trans k7)
+    ((o8 _ (by decide)).trans k8) ((o8 _ (by decide)).trans k9)
+  rw [← pyBindFlags_eq] at x9
+  refine ⟨env8, envO, o8, i8, a8, r8, t8, oO, ?_⟩
+  rw [bind_body_eq, execBlock_cons_ok _ _ _ _ _ (bindS0_exec s a asym bnd env0 t k0),
+    execBlock_cons_ok _ _ _ _ _ (bindS1_exec s a asym bnd env0 k1),
+    execBlock_cons_stage _ _ env0 _ _ _ _ (bindS2_exec s a asym bnd env0 k1)]
+  cases asym && (a.rx.mode.hasPrefix != a.tx.mode.hasPrefix)
+  case true => rfl
+  simp only [Bool.false_eq_true, if_false]
+  rw [execBlock_cons_ok _ _ _ _ _ x3, execBlock_cons_ok _ _ _ _ _ x4, execBlock_cons_ok _ _ _ _ _ x5,
+    execBlock_cons_ok _ _ _ _ _ x6, execBlock_cons_ok _ _ _ _ _ x7, execBlock_cons_ok _ _ _ _ _ x8, execBlock, x9]
+  cases a.tx.mode.hasPrefix || a.rx.mode.hasPrefix
+  · rfl
+  · simp only [if_true, pyBindArgs]
+    cases setOpts s { optflag := .int (pyBindFlags s a), extAddress := optPy a.tx.txExtByte, rxExtAddress := optPy a.rx.rxExtByte } <;> rfl
+
+def recBindKeys : List String := ["bind.interface", "bind.rxid", "bind.txid", "bind.#set_opts", "#binds"]
+def recSetOptsKeys : List String := ["set_opts.optflag", "set_opts.ext_address", "set_opts.rx_ext_address", "#set_opts"]
+
+theorem recordBindEnv_lookups (env : Env) (c : Sc) (r t : Nat) (k : PV) :
+    recordBindEnv env c r t k "#binds" = some (pint ((1 : Nat) : Int)) ∧
+    recordBindEnv env c r t k "bind.interface" = some (.sc c) ∧
+    recordBindEnv env c r t k "bind.rxid" = some (pint (r : Nat)) ∧
+    recordBindEnv env c r t k "bind.txid" = some (pint (t : Nat)) ∧
+    recordBindEnv env c r t k "bind.#set_opts" = some k ∧
+    EqOff recBindKeys env (recordBindEnv env c r t k) := by
+  refine ⟨by simp [recordBindEnv, Env.set], by simp [recordBindEnv, Env.set], by simp [recordBindEnv, Env.set],
+    by simp [recordBindEnv, Env.set], by simp [recordBindEnv, Env.set], ?_⟩
+  exact (((((EqOff.refl _ env).set _ _ (by decide)).set _ _ (by decide)).set _ _ (by decide)).set _ _ (by decide)).set _ _ (by decide)
+
+theorem recordSetOpts_lookups (env : Env) (fl : Nat) (x y : Option Nat) :
+    recordSetOpts env fl x y "#set_opts" = some (pint ((1 : Nat) : Int)) ∧
+    recordSetOpts env fl x y "set_opts.optflag" = some (pint (fl : Nat)) ∧
+    recordSetOpts env fl x y "set_opts.ext_address" = some (optPV x) ∧
+    recordSetOpts env fl x y "set_opts.rx_ext_address" = some (optPV y) ∧
+    EqOff recSetOptsKeys env (recordSetOpts env fl x y) := by
+  refine ⟨by simp [recordSetOpts, Env.set], by simp [recordSetOpts, Env.set], by simp [recordSetOpts, Env.set],
+    by simp [recordSetOpts, Env.set], ?_⟩
+  exact ((((EqOff.refl _ env).set _ _ (by decide)).set _ _ (by decide)).set _ _ (by decide)).set _ _ (by decide)
+
+/-- **`socket.bind` fails exactly as the model does, whatever `self._socket.bind` would do** (so: before it is called):
+    `ValueError` for an asymmetric address whose halves disagree on the extension byte, and whatever `set_opts` raises. -/
+theorem socket_bind_reject_any (t : Nat) (e : PyExc) (h : Sock.bind s a asym = .error e) :
+    runFn (bindMeths s a asym bnd) (bindEnv s (.sc (.py (.str t)))) Src.socket_bind = .error (.exc e) := by
+  obtain ⟨env8, envO, _, _, _, _, _, _, hx⟩ := bind_run s a asym bnd t
+  rw [bind_eq] at h
+  rw [runFn, hx]
+  cases hm : asym && (a.rx.mode.hasPrefix != a.tx.mode.hasPrefix)
+  · simp only [hm, Bool.false_eq_true, if_false] at h ⊢
+    cases hp : a.tx.mode.hasPrefix || a.rx.mode.hasPrefix
+    · simp [hp] at h
+    · simp only [hp, if_true] at h ⊢
+      cases hs : setOpts s (pyBindArgs s a) with
+      | error e' => rw [hs] at h; injection h with h; subst h; rfl
+      | ok r => rw [hs] at h; simp at h
+  · simp only [hm, if_true] at h ⊢
+    injection h with h; subst h; rfl
+
+end bindStmts
+
+/-- **`socket.bind` succeeds exactly as the model does**: it returns `None`; `self.bound`, `self.interface`, `self.address`
+    are set; `self._socket.bind` has been called exactly once, with `(interface, rxid, txid)` = the model's masked / flagged
+    identifiers; and `self.set_opts` has been called (once, BEFORE the bind, with the model's `optflag`, `ext_address`,
+    `rx_ext_address`) iff one of the halves carries an extension byte.  The model's result is `afterBind` of the socket
+    `set_opts` leaves. -/
+theorem socket_bind_accept (s : Sock) (a : Addr) (asym : Bool) (t : Nat) (s' : Sock) (h : Sock.bind s a asym = .ok s') :
+    ∃ env', runFn (bindMeths s a asym recordBind) (bindEnv s (.sc (.py (.str t)))) Src.socket_bind = .ok (pnone, env') ∧
+      env' "self.bound" = some (pbool true) ∧ env' "self.interface" = some (.sc (.py (.str t))) ∧
+      env' "self.address" = some (.meth "address") ∧
+      env' "#binds" = some (pint ((1 : Nat) : Int)) ∧ env' "bind.interface" = some (.sc (.py (.str t))) ∧
+      env' "bind.rxid" = some (pint (bindRxid a : Nat)) ∧ env' "bind.txid" = some (pint (bindTxid a : Nat)) ∧
+      (if a.tx.mode.hasPrefix || a.rx.mode.hasPrefix then
+        env' "#set_opts" = some (pint ((1 : Nat) : Int)) ∧ env' "bind.#set_opts" = some (pint ((1 : Nat) : Int)) ∧
+        env' "set_opts.optflag" = some (pint (pyBindFlags s a : Nat)) ∧
+        env' "set_opts.ext_address" = some (optPV a.tx.txExtByte) ∧
+        env' "set_opts.rx_ext_address" = some (optPV a.rx.rxExtByte) ∧
+        ∃ r, setOpts s (pyBindArgs s a) = .ok r ∧ s' = afterBind r.1 a
+      else
+        env' "#set_opts" = some (pint ((0 : Nat) : Int)) ∧ env' "bind.#set_opts" = some (pint ((0 : Nat) : Int)) ∧
+        s' = afterBind s a) := by
+  obtain ⟨env8, envO, o8, i8, a8, r8, t8, oO, hx⟩ := bind_run s a asym recordBind t
+  obtain ⟨k0, k1, k2, k3, k4, k5, k6, k7, k8, k9, k10⟩ := bindEnv_lookups s (.sc (.py (.str t)))
+  rw [bind_eq] at h
+  rw [runFn, hx]
+  cases hm : asym && (a.rx.mode.hasPrefix != a.tx.mode.hasPrefix)
+  case true => simp [hm] at h
+  simp only [hm, Bool.false_eq_true, if_false] at h ⊢
+  cases hp : a.tx.mode.hasPrefix || a.rx.mode.hasPrefix
+  · -- no extension byte: no `set_opts`
+    simp only [hp, Bool.false_eq_true, if_false, Except.ok.injEq] at h ⊢
+    have c8 : env8 "#binds" = some (pint ((0 : Nat) : Int)) := (o8 _ (by decide)).trans k10
+    have n8 : env8 "#set_opts" = some (pint ((0 : Nat) : Int)) := (o8 _ (by decide)).trans k9
+    have f8 : env8 "interface" = some (.sc (.py (.str t))) := (o8 _ (by decide)).trans k0
+    obtain ⟨b0, b1, b2, b3, b4, bo⟩ := recordBindEnv_lookups env8 (.py (.str t)) (bindRxid a) (bindTxid a) (pint ((0 : Nat) : Int))
+    refine ⟨(recordBindEnv env8 (.py (.str t)) (bindRxid a) (bindTxid a) (pint ((0 : Nat) : Int))).set "self.bound" (pbool true),
+      ?_, Env.set_self _ _ _, ?_, ?_, ?_, ?_, ?_, ?_, ?_, ?_, h.symm⟩
+    · rw [bind_tail_exec s a asym recordBind env8 _ _ _ f8 r8 t8, recordBind_at env8 _ _ _ _ c8 n8]; rfl
+    · exact (Env.set_ne _ _ _ _ (by decide)).trans ((bo _ (by decide)).trans i8)
+    · exact (Env.set_ne _ _ _ _ (by decide)).trans ((bo _ (by decide)).trans a8)
+    · exact (Env.set_ne _ _ _ _ (by decide)).trans b0
+    · exact (Env.set_ne _ _ _ _ (by decide)).trans b1
+    · exact (Env.set_ne _ _ _ _ (by decide)).trans b2
+    · exact (Env.set_ne _ _ _ _ (by decide)).trans b3
+    · exact (Env.set_ne _ _ _ _ (by decide)).trans ((bo _ (by decide)).trans n8)
+    · exact (Env.set_ne _ _ _ _ (by decide)).trans b4
+  · -- `set_opts`, then bind
+    simp only [hp, if_true] at h ⊢
+    cases hs : setOpts s (pyBindArgs s a) with
+    | error e' => rw [hs] at h; simp at h
+    | ok r =>
+      rw [hs] at h
+      simp only [Except.ok.injEq] at h ⊢
+      obtain ⟨q0, q1, q2, q3, qo⟩ := recordSetOpts_lookups envO (pyBindFlags s a) a.tx.txExtByte a.rx.rxExtByte
+      generalize recordSetOpts envO (pyBindFlags s a) a.tx.txExtByte a.rx.rxExtByte = env9 at *
+      have through : ∀ k, k ∉ recSetOptsKeys → k ∉ ["o", "o.optflag"] → env9 k = env8 k :=
+        fun k h1 h2 => (qo k h1).trans (oO k h2)
+      have c9 : env9 "#binds" = some (pint ((0 : Nat) : Int)) :=
+        (through _ (by decide) (by decide)).trans ((o8 _ (by decide)).trans k10)
+      have f9 : env9 "interface" = some (.sc (.py (.str t))) :=
+        (through _ (by decide) (by decide)).trans ((o8 _ (by decide)).trans k0)
+      have r9 := (through "rxid" (by decide) (by decide)).trans r8
+      have t9 := (through "txid" (by decide) (by decide)).trans t8
+      obtain ⟨b0, b1, b2, b3, b4, bo⟩ := recordBindEnv_lookups env9 (.py (.str t)) (bindRxid a) (bindTxid a) (pint ((1 : Nat) : Int))
+      refine ⟨(recordBindEnv env9 (.py (.str t)) (bindRxid a) (bindTxid a) (pint ((1 : Nat) : Int))).set "self.bound" (pbool true),
+        ?_, Env.set_self _ _ _, ?_, ?_, ?_, ?_, ?_, ?_, ?_, ?_, ?_, ?_, ?_, r, rfl, h.symm⟩
+      · rw [bind_tail_exec s a asym recordBind env9 _ _ _ f9 r9 t9, recordBind_at env9 _ _ _ _ c9 q0]; rfl
+      · exact (Env.set_ne _ _ _ _ (by decide)).trans ((bo _ (by decide)).trans ((through _ (by decide) (by decide)).trans i8))
+      · exact (Env.set_ne _ _ _ _ (by decide)).trans ((bo _ (by decide)).trans ((through _ (by decide) (by decide)).trans a8))
+      · exact (Env.set_ne _ _ _ _ (by decide)).trans b0
+      · exact (Env.set_ne _ _ _ _ (by decide)).trans b1
+      · exact (Env.set_ne _ _ _ _ (by decide)).trans b2
+      · exact (Env.set_ne _ _ _ _ (by decide)).trans b3
+      · exact (Env.set_ne _ _ _ _ (by decide)).trans ((bo _ (by decide)).trans q0)
+      · exact (Env.set_ne _ _ _ _ (by decide)).trans b4
+      · exact (Env.set_ne _ _ _ _ (by decide)).trans ((bo _ (by decide)).trans q1)
+      · exact (Env.set_ne _ _ _ _ (by decide)).trans ((bo _ (by decide)).trans q2)
+      · exact (Env.set_ne _ _ _ _ (by decide)).trans ((bo _ (by decide)).trans q3)
+
+/-- `bind` with an `interface` that is not a `str`: `ValueError` (a fact about the source only) -/
+theorem socket_bind_nonstr (s : Sock) (a : Addr) (asym : Bool) (bnd) (v : PV) (hv : ∀ t, v ≠ .sc (.py (.str t))) :
+    runFn (bindMeths s a asym bnd) (bindEnv s v) Src.socket_bind = .error (.exc .ValueError) := by
+  have h0 := bindS0_exec_nonstr s a asym bnd (bindEnv s v) v (bindEnv_lookups s v).1 hv
+  simp [runFn, bind_body_eq, execBlock, h0]
+
+
+/-! ## 8. summary: the rejected runs under the two method records
+
+  A run under `failMeths` cannot execute a `s.setsockopt` statement without ending in `unsupported "setsockopt"`.  So:
+  the model rejects ⟹ `ValueError` under BOTH records, i.e. raised before any `s.setsockopt` statement;
+  the model accepts ⟹ the run under `failMeths` does reach `s.setsockopt` (the `_accept_fail` theorems), and the run under
+  `recMeths` records exactly the model's calls (the `_accept` theorems). -/
+
+theorem GeneralOpts_write_reject (s : Sock) (a : OptsArgs) (e : PyExc) (h : writeOpts s a = .error e) :
+    e = .ValueError ∧ runFn recMeths (genEnv s a) Src.GeneralOpts_write = .error (.exc .ValueError) ∧
+      runFn failMeths (genEnv s a) Src.GeneralOpts_write = .error (.exc .ValueError) :=
+  ⟨(GeneralOpts_write_reject_any recordSso s a e h).1, (GeneralOpts_write_reject_any recordSso s a e h).2,
+    (GeneralOpts_write_reject_any failSso s a e h).2⟩
+
+theorem FlowControlOpts_write_reject (s : Sock) (x y z : PyVal) (e : PyExc) (h : writeFc s x y z = .error e) :
+    e = .ValueError ∧ runFn recMeths (fcEnv s x y z) Src.FlowControlOpts_write = .error (.exc .ValueError) ∧
+      runFn failMeths (fcEnv s x y z) Src.FlowControlOpts_write = .error (.exc .ValueError) :=
+  ⟨(FlowControlOpts_write_reject_any recordSso s x y z e h).1, (FlowControlOpts_write_reject_any recordSso s x y z e h).2,
+    (FlowControlOpts_write_reject_any failSso s x y z e h).2⟩
+
+theorem LinkLayerOpts_write_reject (s : Sock) (x y z : PyVal) (e : PyExc) (h : writeLl s x y z = .error e) :
+    e = .ValueError ∧ runFn recMeths (llEnv s x y z) Src.LinkLayerOpts_write = .error (.exc .ValueError) ∧
+      runFn failMeths (llEnv s x y z) Src.LinkLayerOpts_write = .error (.exc .ValueError) :=
+  ⟨(LinkLayerOpts_write_reject_any recordSso s x y z e h).1, (LinkLayerOpts_write_reject_any recordSso s x y z e h).2,
+    (LinkLayerOpts_write_reject_any failSso s x y z e h).2⟩
+
+/-- under `failMeths` the outcome tells the two cases apart -/
+theorem GeneralOpts_write_fail_iff (s : Sock) (a : OptsArgs) :
+    runFn failMeths (genEnv s a) Src.GeneralOpts_write =
+      match writeOpts s a with
+      | .error _ => .error (.exc .ValueError)
+      | .ok _ => .error (.unsupported "setsockopt") := by
+  cases h : writeOpts s a with
+  | error e => exact (GeneralOpts_write_reject s a e h).2.2
+  | ok r => exact GeneralOpts_write_accept_fail s a r h
+
+/-! ### non-vacuity of the hypotheses -/
+
+/-- rejected: a wrong-typed value, an out-of-range value, a late (`tx_stmin`) rejection after valid fields -/
+example : writeOpts {} { optflag := .str 0 } = .error .ValueError := rfl
+example : writeOpts {} { txpad := .int 256 } = .error .ValueError := rfl
+example : writeOpts {} { txpad := .int 1, txStmin := .int (-1) } = .error .ValueError := rfl
+/-- accepted, without and with `tx_stmin`, and with a `bool` (why the attributes are compared as integers) -/
+example : ∃ s' o', writeOpts {} { txpad := .int 1 } = .ok (s', o') ∧ s'.calls.length = 1 := ⟨_, _, rfl, rfl⟩
+example : ∃ s' o', writeOpts {} { txpad := .int 1, txStmin := .int 5 } = .ok (s', o') ∧ s'.calls.length = 2 := ⟨_, _, rfl, rfl⟩
+example : ∃ s' o', writeOpts {} { optflag := .bool true } = .ok (s', o') ∧ o'.flags = 1 := ⟨_, _, rfl, rfl⟩
+example : writeFc {} (.int 8) (.float 1 2) .none = .error .ValueError := rfl
+example : ∃ s' o', writeFc {} (.int 8) .none (.int 0) = .ok (s', o') := ⟨_, _, rfl⟩
+example : writeLl {} (.int 72) (.int 300) .none = .error .ValueError := rfl
+example : ∃ s' o', writeLl {} (.int 72) (.int 64) .none = .ok (s', o') := ⟨_, _, rfl⟩
+
+
+/-- `bind`: plain identifiers (no `set_opts`), an extension byte (one `set_opts`), the two failures -/
+def exHalfN11 : Half :=
+  { mode := .n11, txid := some 0x123, rxid := some 0x456, ta := none, sa := none, ae := none, physId := 0, funcId := 0,
+    rxOnly := false, txOnly := false }
+def exHalfE29 : Half :=
+  { mode := .e29, txid := some 0x123456, rxid := some 0x654321, ta := some 0x55, sa := some 0xAA, ae := none, physId := 0,
+    funcId := 0, rxOnly := false, txOnly := false }
+example : ∃ s', Sock.bind {} { tx := exHalfN11, rx := exHalfN11 } false = .ok s' ∧ s'.calls = [.bind 0x456 0x123] := ⟨_, rfl, rfl⟩
+example : ∃ s', Sock.bind {} { tx := exHalfE29, rx := exHalfE29 } false = .ok s' ∧ s'.calls.length = 2 ∧
+    s'.k.bound = some (0x80654321, 0x80123456) := ⟨_, rfl, rfl, rfl⟩
+example : Sock.bind {} { tx := { exHalfN11 with txOnly := true }, rx := { exHalfE29 with rxOnly := true } } true = .error .ValueError := rfl
+example : Sock.bind { bound := true } { tx := exHalfE29, rx := exHalfE29 } false = .error .RuntimeError := rfl
+
 end Isotp.PyAgree
+
+#print axioms Isotp.PyAgree.or_two_pow_eq_orFlag
+#print axioms Isotp.PyAgree.GeneralOpts_write_reject_any
+#print axioms Isotp.PyAgree.GeneralOpts_write_reject
+#print axioms Isotp.PyAgree.GeneralOpts_write_accept
+#print axioms Isotp.PyAgree.GeneralOpts_write_accept_fail
+#print axioms Isotp.PyAgree.GeneralOpts_write_fail_iff
+#print axioms Isotp.PyAgree.FlowControlOpts_write_reject_any
+#print axioms Isotp.PyAgree.FlowControlOpts_write_reject
+#print axioms Isotp.PyAgree.FlowControlOpts_write_accept
+#print axioms Isotp.PyAgree.FlowControlOpts_write_accept_fail
+#print axioms Isotp.PyAgree.LinkLayerOpts_write_reject_any
+#print axioms Isotp.PyAgree.LinkLayerOpts_write_reject
+#print axioms Isotp.PyAgree.LinkLayerOpts_write_accept
+#print axioms Isotp.PyAgree.LinkLayerOpts_write_accept_fail
+#print axioms Isotp.PyAgree.socket_set_opts_exec
+#print axioms Isotp.PyAgree.socket_set_opts_agrees
+#print axioms Isotp.PyAgree.socket_set_fc_opts_exec
+#print axioms Isotp.PyAgree.socket_set_fc_opts_agrees
+#print axioms Isotp.PyAgree.socket_set_ll_opts_exec
+#print axioms Isotp.PyAgree.socket_set_ll_opts_agrees
+#print axioms Isotp.PyAgree.socket_bind_reject_any
+#print axioms Isotp.PyAgree.socket_bind_accept
+#print axioms Isotp.PyAgree.socket_bind_nonstr
